@@ -42,16 +42,157 @@ def hasDup : List Nat → Bool
 def trigDiamond (S : Schema) (ops : List Op) : Bool :=
   ops.any (fun op => match op with | .mkq _ c none => hasDup (S.below c) | _ => false)
 
+/-! ### stepwise (lazily consumed) evaluations — driver level, on top of the proven model
+
+`(qstart k c)` builds `an(entity(x, <trivially true condition on x>))` over `x = let(C, None)` and takes `iter(q.evaluate())`:
+nothing runs yet. `(qnext k)` is one `next()`. The first `next()` runs `remove_dead_instances()` and starts the domain
+generator of `get_instances_of_type`: it walks `[type_] + recursive_subclasses(type_)` (the classes that exist THEN) and
+copies the list of a class when it REACHES that class; it yields `wrapper.instance`, which is `None` for an instance that
+died after the copy was taken — the condition then raises `AttributeError` and the evaluation is over. Every yielded
+instance enters the cached domain of the variable (a strong reference).
+The operations of the history in between are ordinary model steps (`SG.step`); the walk reads the model's `byClass`. -/
+
+structure Iter where
+  key : Nat
+  cls : Cls
+  started : Bool := false
+  walk : List Cls := []
+  cur : List Obj := []
+  yielded : List Obj := []
+  expected : List Obj := []
+  /-- 0 open, 1 stop, 2 raised -/
+  status : Nat := 0
+
+inductive DOp where
+  | m (ops : List Op)
+  | defclass (c p : Cls)
+  | qstart (k : Nat) (c : Cls)
+  | qnext (k : Nat)
+
+def parseD (xs : List Sexp) : Option (List DOp) :=
+  let rec go (pos : Nat) : List Sexp → Option (List DOp)
+    | [] => some []
+    | x :: r => do
+      let a ← match x with
+        | .list [.atom "defclass", c, p] => do pure (DOp.defclass (← c.asNat?) (← p.asNat?))
+        | .list [.atom "qstart", k, c] => do pure (DOp.qstart (← k.asNat?) (← c.asNat?))
+        | .list [.atom "qnext", k] => do pure (DOp.qnext (← k.asNat?))
+        | _ => do pure (DOp.m (← parseOp pos x))
+      let b ← go (pos + 1) r
+      pure (a :: b)
+  go 0 xs
+
+structure DRun where
+  st : DSt
+  defs : List (Cls × Cls) := []
+  iters : List Iter := []
+
+def iterKey (k : Nat) : Nat := 500000 + k
+
+def setCache (st : DSt) (k : Nat) (ys : List Obj) : DSt :=
+  { st with h := { st.h with qvars := st.h.qvars.map (fun v =>
+      if v.key == iterKey k then { v with cache := some ys.eraseDups } else v) } }
+
+/-- one `next()`; `snap` = the repaired behaviour (every class list copied when the evaluation starts, dead
+instances skipped) -/
+def advance (q : Quirks) (snap : Bool) (S : Schema) (Sfinal : Schema) (st : DSt) (it : Iter) : DSt × Iter :=
+  if it.status != 0 then (st, it) else
+  let (st, it) :=
+    if it.started then (st, it)
+    else
+      let st := stepS Sfinal q st .sweep
+      let classes := if q.dupSubclasses then S.below it.cls else (S.below it.cls).eraseDups
+      let exp := st.h.expected S it.cls
+      if snap then
+        (st, { it with started := true, walk := [], expected := exp,
+                       cur := classes.flatMap fun c => (st.g.byClass.filter (fun w => w.cls == c)).map (·.obj) })
+      else (st, { it with started := true, walk := classes, expected := exp })
+  let rec go (fuel : Nat) (it : Iter) : DSt × Iter :=
+    match fuel with
+    | 0 => (st, it)
+    | fuel + 1 =>
+      match it.cur with
+      | o :: rest =>
+        if st.h.isLive o then
+          let it := { it with cur := rest, yielded := it.yielded ++ [o] }
+          (setCache st it.key it.yielded, it)
+        else if snap then go fuel { it with cur := rest }
+        else (st, { it with cur := rest, status := 2 })
+      | [] =>
+        match it.walk with
+        | c :: w => go fuel { it with walk := w, cur := (st.g.byClass.filter (fun x => x.cls == c)).map (·.obj) }
+        | [] => (st, { it with status := 1 })
+  go (it.walk.length + it.cur.length + st.g.byClass.length + 2) it
+
+def stepDOp (q : Quirks) (snap : Bool) (Sfinal : Schema) (r : DRun) : DOp → DRun
+  | .m ops => { r with st := runFromS Sfinal q r.st ops }
+  | .defclass c p => { r with defs := r.defs ++ [(c, p)] }
+  | .qstart k c =>
+    if r.iters.any (fun it => it.key == k) then r
+    else { r with st := stepS Sfinal q r.st (.mkq (iterKey k) c none), iters := r.iters ++ [{ key := k, cls := c }] }
+  | .qnext k =>
+    match r.iters.find? (fun it => it.key == k) with
+    | none => r
+    | some it =>
+      let (st, it') := advance q snap (schemaWith r.defs) Sfinal r.st it
+      { r with st := st, iters := r.iters.map (fun x => if x.key == k then it' else x) }
+
+def iterDiff (st : DSt) (i : Nat) (it : Iter) : Option String :=
+  let missing := if it.status == 1 then
+      (sortNat it.expected).filter (fun x => st.h.isLive x && !it.yielded.contains x) else []
+  let extra := (sortNat it.yielded).eraseDups.filter (fun x => !it.expected.contains x)
+  let d := dups it.yielded
+  if missing.isEmpty && extra.isEmpty && d.isEmpty && it.status != 2 then none
+  else some (s!"s{i}:missing={showNats missing},extra={showNats extra},dup={showNats d}" ++
+    (if it.status == 2 then ",raised" else ""))
+
+def statusName (n : Nat) : String := if n == 0 then "open" else if n == 1 then "stop" else "raised"
+
+def obsD (r : DRun) : String :=
+  let ds := (enum r.st.h.out).filterMap (fun p => diffOf p.1 p.2) ++
+    (enum r.iters).filterMap (fun p => iterDiff r.st p.1 p.2)
+  let a := if ds.isEmpty then "ok" else ";".intercalate ds
+  let b := r.st.h.out.map (fun o => showNats (sortNat o.res)) ++
+    r.iters.map (fun it => s!"it{it.key}={showNats (sortNat it.yielded)}/{statusName it.status}")
+  a ++ "|" ++ ";".intercalate b
+
+def runDOps (q : Quirks) (snap : Bool) (Sfinal : Schema) (ops : List DOp) : DRun :=
+  ops.foldl (stepDOp q snap Sfinal) { st := St.init lifo }
+
+/-- is `c` at or below `t` in the final hierarchy -/
+def isBelow (S : Schema) (t c : Cls) : Bool := (S.below t).contains c
+
+/-- F-C13-3 / F-C13-4: while a stepwise evaluation is suspended (after its first `next()`, before it ended) an
+instance of its type is created / some instance is dropped -/
+def trigSuspended (S : Schema) (ops : List DOp) : Bool × Bool :=
+  let step := fun (acc : List (Nat × Cls) × List Nat × Bool × Bool) (op : DOp) =>
+    let (pending, started, t3, t4) := acc
+    match op with
+    | .qstart k c => ((k, c) :: pending, started, t3, t4)
+    | .qnext k => (pending, if started.contains k then started else k :: started, t3, t4)
+    | .m os =>
+      let open_ := pending.filter (fun p => started.contains p.1)
+      let created := os.any (fun o => match o with
+        | .new _ c _ => open_.any (fun p => isBelow S p.2 c) | _ => false)
+      let dropped := !open_.isEmpty && os.any (fun o => match o with | .drop _ => true | _ => false)
+      (pending, started, t3 || created, t4 || dropped)
+    | _ => acc
+  let r := ops.foldl step ([], [], false, false)
+  (r.2.2.1, r.2.2.2)
+
 def run (s : Sexp) : String :=
   match s with
   | .list (.atom "h" :: xs) =>
-    match parseOps xs with
-    | some ops =>
+    match parseOps xs, parseD xs with
+    | some ops, some dops =>
       let S := schemaWith (parseDefs xs)
-      let m := obs (runS S Quirks.asIs ops).h.out
-      let mr := obs (runS S Quirks.none ops).h.out
-      let trig := joinTrig [(trigReeval ops, "F-C13-1"), (trigDiamond S ops, "F-C13-2")]
+      let m := obsD (runDOps Quirks.asIs false S dops)
+      let mr := obsD (runDOps Quirks.none true S dops)
+      let its := dops.filterMap (fun o => match o with | .qstart _ c => some c | _ => none)
+      let (t3, t4) := trigSuspended S dops
+      let trig := joinTrig [(trigReeval ops, "F-C13-1"),
+        (trigDiamond S ops || its.any (fun c => hasDup (S.below c)), "F-C13-2"), (t3, "F-C13-3"), (t4, "F-C13-4")]
       s!"model={m}\tspec=ok|*\ttrig={trig}\tmodel_repaired={mr}"
-    | none => "error=bad-case"
+    | _, _ => "error=bad-case"
   | _ => "error=bad-case"
 end KrroodVerif.Drive.C13
